@@ -444,14 +444,33 @@ Merge(S, f(_)) == LET RECURSIVE mg(_)
                       mg(T) == IF T = {} THEN <<>> ELSE LET x == CHOOSE y \in T : TRUE IN f(x) @@ mg(T \ {x})
                   IN mg(S)
 
+\* The wrapped function may fail: it returns an ordinary error, it is interrupted by its context while it runs
+\* (BLK: the call then blocks inside the wrapper, holding its mutex / its once), or it panics.  The lock discipline
+\* must hold on these paths as well (state classes err / ctxerr / ctxwait / panic below).
+CtxFns == {"Operation", "Worker", "Processor", "Producer", "Transform"}     \* the wrapped function receives a context
+ErrFns == {"Worker", "Processor", "Producer", "Transform"}                  \* ... and returns an error
+Run(f, steps) == IF f \in CtxFns THEN <<BLK>> \o steps ELSE steps
+
 WrapTable ==
-     Merge(FnTypes,  LAMBDA f : (f \o ".Lock()")     :> M("wrap." \o f \o ".Lock",     TRUE, Locked("lock.mtx", <<W("lock.body")>>)))
-  @@ Merge(FnTypes,  LAMBDA f : (f \o ".WithLock()") :> M("wrap." \o f \o ".WithLock", TRUE, Locked("lock.mtx", <<W("lock.body")>>)))
+     Merge(FnTypes,  LAMBDA f : (f \o ".Lock()")     :> M("wrap." \o f \o ".Lock",     TRUE, Locked("lock.mtx", Run(f, <<W("lock.body")>>))))
+  @@ Merge(FnTypes,  LAMBDA f : (f \o ".WithLock()") :> M("wrap." \o f \o ".WithLock", TRUE, Locked("lock.mtx", Run(f, <<W("lock.body")>>))))
   @@ Merge(OnceFns,  LAMBDA f : (f \o ".Once()")     :> M("wrap." \o f \o ".Once",     TRUE,
-                                   <<OB("w.once"), W("once.body"), W("once.result"), OE("w.once"), R("once.result")>>))
-  @@ Merge(LimitFns, LAMBDA f : (f \o ".Limit()")    :> M("wrap." \o f \o ".Limit",    TRUE, <<C("limitExec()")>>))
-  @@ "Operation.Limit()" :> M("wrap.Operation.Limit", TRUE, <<R("oplimit.counter"), W("oplimit.counter")>>)
+                                   <<OB("w.once")>> \o Run(f, <<W("once.body"), W("once.result")>>) \o <<OE("w.once"), R("once.result")>>))
+  @@ Merge(LimitFns, LAMBDA f : (f \o ".Limit()")    :> M("wrap." \o f \o ".Limit",    TRUE, Run(f, <<C("limitExec()")>>)))
+  @@ "Operation.Limit()" :> M("wrap.Operation.Limit", TRUE, <<BLK, R("oplimit.counter"), W("oplimit.counter")>>)
   @@ "Mnemonize()" :> M("wrap.Mnemonize", TRUE, <<OB("w.once"), W("once.body"), W("once.result"), OE("w.once"), R("once.result")>>) \* atomics.go:34
+
+\* state classes of a wrapper: how often it ran before it is shared, and how the wrapped function ends
+FailClasses(f) == IF f \in ErrFns THEN <<"err", "ctxerr", "panic">>
+                  ELSE IF f \in CtxFns THEN <<"ctxwait", "panic">>       \* Operation: no error to return
+                  ELSE <<"panic">>                                        \* Future / Handler: neither context nor error
+WrapClasses ==
+     Merge(FnTypes,  LAMBDA f : ("wrap." \o f \o ".Lock")     :> (<<"fresh", "used">> \o FailClasses(f)))
+  @@ Merge(FnTypes,  LAMBDA f : ("wrap." \o f \o ".WithLock") :> (<<"fresh", "used">> \o FailClasses(f)))
+  @@ Merge(OnceFns,  LAMBDA f : ("wrap." \o f \o ".Once")     :> (<<"fresh", "used">> \o FailClasses(f)))
+  @@ Merge(LimitFns, LAMBDA f : ("wrap." \o f \o ".Limit")    :> (<<"fresh", "exhausted">> \o FailClasses(f)))
+  @@ "wrap.Operation.Limit" :> <<"fresh", "used", "ctxwait", "panic">>
+  @@ "wrap.Mnemonize"       :> <<"fresh", "used", "panic">>
 
 \* the table for a given set F of repairs
 MethodF(F) ==
@@ -471,28 +490,33 @@ Methods == DOMAIN Method
 
 \* state classes (configuration/state) each component's pairs and probes are to be run in
 Classes ==
-     "queue"  :> <<"unlimited/empty", "unlimited/nonempty", "unlimited/closed", "limit/empty", "limit/full", "limit/closed">>
-  @@ "deque"  :> <<"cap/empty", "cap/nonempty", "cap/full", "cap/closed", "unlimited/empty", "unlimited/nonempty", "quota/nonempty">>
+  \* iter-at-back: non-empty, and every handed-out producer / iterator has already been advanced to the newest entry
+  \* (it rests ON the back entry, outside any call, when the next Add / Push arrives)
+     "queue"  :> <<"unlimited/empty", "unlimited/nonempty", "unlimited/iter-at-back", "unlimited/closed", "limit/empty", "limit/full", "limit/closed">>
+  @@ "deque"  :> <<"cap/empty", "cap/nonempty", "cap/full", "cap/closed", "unlimited/empty", "unlimited/nonempty", "unlimited/iter-at-back", "quota/nonempty">>
   @@ "broker.chan"  :> <<"serial/idle", "serial/subscribed", "parallel/subscribed", "serial/stopped">>
   @@ "broker.queue" :> <<"serial/idle", "serial/subscribed", "parallel/subscribed", "serial/stopped">>
   @@ "broker.deque" :> <<"serial/idle", "serial/subscribed", "parallel/subscribed", "serial/stopped">>
   @@ "broker.lifo"  :> <<"serial/idle", "serial/subscribed", "parallel/subscribed", "serial/stopped">>
   @@ "waitgroup"    :> <<"zero", "positive">>
   @@ "collector"    :> <<"empty", "nonempty">>
-  @@ "synchronized" :> <<"any">>
+  @@ "synchronized" :> <<"any", "cb-panics">>          \* cb-panics: the function given to With / Using panics
   @@ "atomic"       :> <<"unset", "set">>
   @@ "once"         :> <<"new", "defined", "done">>
   @@ "map"          :> <<"empty", "nonempty">>
   @@ "pool"         :> <<"new", "configured", "finalized">>
   \* fresh: Synchronize() only, the map not made yet; differs: the other set has as many members, but different ones
   @@ "set"          :> <<"unordered/fresh", "unordered/empty", "unordered/nonempty", "unordered/differs", "ordered/empty", "ordered/nonempty", "ordered/differs">>
-  @@ "accessors"    :> <<"any">>
-  @@ "accessors.rw" :> <<"any">>
+  @@ "accessors"    :> <<"any", "panic">>              \* panic: the wrapped getter / setter panic
+  @@ "accessors.rw" :> <<"any", "panic">>
 
-WrapComps == {Method[m].c : m \in DOMAIN WrapTable}
-ClassesOf(c) == IF c \in DOMAIN Classes THEN Classes[c]
-                ELSE IF \E f \in LimitFns : c = "wrap." \o f \o ".Limit" THEN <<"fresh", "exhausted">>
-                ELSE <<"fresh", "used">>
+ClassesOf(c) == IF c \in DOMAIN Classes THEN Classes[c] ELSE WrapClasses[c]
+
+\* schedule shapes every pair job is run in (round r uses shape r mod 4).  A paced thread idles between two of its calls
+\* (no synchronisation involved), so that the other one gets ahead: with "first-paced" the second method keeps catching
+\* up with the first (an iterator parked at the tail when the next Add lands), with "second-paced" the first one is ahead
+\* (an iterator resting on the back entry, outside any call, when the next Add lands), "both-paced" alternates.
+Shapes == <<"free", "first-paced", "second-paced", "both-paced">>
 
 (***************************************************************************)
 (* Flattening                                                               *)
@@ -569,6 +593,7 @@ ChokePairs(c) == UNION {{<<m, Probe(e.a)>> : e \in {x \in Range(FlatOf[m]) \cup 
 Obligations(c) ==
   [comp     |-> c,
    classes  |-> ClassesOf(c),
+   shapes   |-> Shapes,
    public   |-> PubSeqOf[c],
    blocking |-> SetToSeq({m \in Public(c) : Blocks(m)}),
    unjudged |-> SetToSeq(Unjudged \cap Public(c)),
